@@ -27,7 +27,7 @@ from vlib.dialects import budget_parser
 
 ID = "C15"
 LEVEL = "exploration"
-BUDGET = {"quick": 80, "thorough": 1500}
+BUDGET = {"quick": 110, "thorough": 1500}
 RULE = (
     "(a) all 1,114,112 code points x 5 grammars (always complete); (b) (code point, "
     "position, configuration) triples over 24 basic label positions (among them the "
@@ -116,6 +116,11 @@ POSITIONS = {
     "end-of-text-glued": lambda c: HEAD + f"k = a{c}",
     # dash continuations on both sides of the character: an error position has to be
     # mapped back over the ones before it only (pvl.loads with a strict grammar)
+    # a carriage return that is not followed by a line feed somewhere before the
+    # character: whatever a line is taken to be, lineno and colno must mean the same
+    "after-lone-CR": lambda c: HEAD + f"k = 1\rj = a{c}b\nEND\n",
+    "CR-only-lines": lambda c: f"x = 0\r  k = 1\rj = a{c}b\rEND\r",
+    "CR-as-white-space": lambda c: HEAD + f"k =\r1 j\r=\ra{c}b\nEND\n",
     "between-continuations": lambda c: HEAD + f'k = "ab-\n cd"\nq = a{c}b\nr = "ef-\n gh"\nEND\n',
     "between-many-continuations": lambda c: HEAD + (
         f'k = "a-\n      b-\n      c-\n      d"\nq = {c}\nr = "x-\n y"\ns = "z-\n   w"\nEND\n'),
@@ -151,7 +156,8 @@ BASIC_SET = {"name", "unquoted", "quoted", "quoted-first", "quoted-last", "quote
              "lone-line-end", "quoted-2nd-line", "comment-3rd-line", "units-2nd-line",
              "start-glued", "start-own-line", "start-before-comment", "end-of-text",
              "end-of-text-glued", "between-continuations", "between-many-continuations",
-             "between-continuations-close"}
+             "between-continuations-close", "after-lone-CR", "CR-only-lines",
+             "CR-as-white-space"}
 GAP_EXTRA = {0x100, 0x17F, 0x3B1, 0x2028, 0x20AC, 0xD7FF, 0xD800, 0xDFFF, 0xE000, 0xFEFF,
              0xFFFF, 0x10000, 0x1F600, 0x10FFFF}
 BASIC_POSITIONS = [k for k in POSITIONS if not k.startswith(("gap", "glue"))]
@@ -173,6 +179,8 @@ def check_one(cfg, posname, o):
     text = POSITIONS[posname](c)
     if posname.startswith("start-"):
         idx = 0
+    elif posname == "CR-only-lines":
+        idx = text.index(c, 6) if c in text[6:] else None
     else:
         idx = text.index(c, len(HEAD)) if c in text[len(HEAD):] else None
     gname = cfg.split("-")[0]
@@ -205,14 +213,20 @@ def check_one(cfg, posname, o):
             return (f"C15/{gname}/error-pos-past-character",
                     f"{cfg}: U+{o:04X} in {posname} at index {idx}, e.pos={e.pos}; "
                     f"text={text!r}")
-        if e.lineno != 1 + text.count("\n", 0, e.pos):
-            return (f"C15/{gname}/error-lineno",
-                    f"{cfg}: U+{o:04X} in {posname}: lineno {e.lineno}, pos {e.pos} "
-                    f"is on line {1 + text.count(chr(10), 0, e.pos)}")
-        if e.colno != e.pos - text.rfind("\n", 0, e.pos):
-            return (f"C15/{gname}/error-colno",
-                    f"{cfg}: U+{o:04X} in {posname}: colno {e.colno}, pos {e.pos} "
-                    f"gives {e.pos - text.rfind(chr(10), 0, e.pos)}")
+        # lines end at LF (what the library counts) - or, consistently for both
+        # attributes, at CR LF / CR / LF
+        import re as _re
+        ends = [mm.end() for mm in _re.finditer(r"\r\n|\r|\n", text[:e.pos])]
+        conventions = [
+            (1 + text.count("\n", 0, e.pos), e.pos - text.rfind("\n", 0, e.pos)),
+            (1 + len(ends), e.pos - (ends[-1] - 1 if ends else -1)),
+        ]
+        if (e.lineno, e.colno) not in conventions:
+            which = "lineno" if e.lineno not in (c[0] for c in conventions) else "colno"
+            return (f"C15/{gname}/error-{which}",
+                    f"{cfg}: U+{o:04X} in {posname}: pos {e.pos} is line/column "
+                    f"{conventions[0]} (lines end at LF) or {conventions[1]} (at CR LF, "
+                    f"CR or LF), reported: ({e.lineno}, {e.colno}); text={text!r}")
         return None
     if posname == "after-END":
         if outcome[0] != "module":
